@@ -618,6 +618,72 @@ fn tc_edit(req: &J) -> J {
     }
 }
 
+/// batched (loader-driven) authorization vs ordinary authorization over the same store, for several iteration budgets.
+/// in: {schema, policies, entities: JSON array, request: {principal, action, resource, context}, budgets: [u32]}
+/// out: {ordinary: "Allow"|"Deny", batched: [{budget, result: "Allow"|"Deny"|"insufficient"|"error: ..", loader_calls, requested: [[uids of call 1], ..]}]}
+fn batched(req: &J) -> J {
+    use cedar_policy::{Authorizer, Context, Entity, EntityLoader, EntityUid, Schema, TestEntityLoader};
+    use std::collections::{HashMap, HashSet};
+    struct Counting<'a> {
+        inner: TestEntityLoader<'a>,
+        calls: u32,
+        requested: Vec<Vec<String>>,
+    }
+    impl EntityLoader for Counting<'_> {
+        fn load_entities(&mut self, uids: &HashSet<EntityUid>) -> HashMap<EntityUid, Option<Entity>> {
+            self.calls += 1;
+            let mut v: Vec<String> = uids.iter().map(|u| u.to_string()).collect();
+            v.sort();
+            self.requested.push(v);
+            self.inner.load_entities(uids)
+        }
+    }
+    let (schema, _) = match Schema::from_cedarschema_str(req["schema"].as_str().unwrap_or("")) {
+        Ok(s) => s,
+        Err(e) => return json!({"input_error": format!("schema: {e}")}),
+    };
+    let pset = match PolicySet::from_str(req["policies"].as_str().unwrap_or("")) {
+        Ok(p) => p,
+        Err(e) => return json!({"input_error": format!("policies: {e}")}),
+    };
+    let ents = match Entities::from_json_value(req["entities"].clone(), Some(&schema)) {
+        Ok(e) => e,
+        Err(e) => return json!({"input_error": format!("entities: {e}")}),
+    };
+    let r = &req["request"];
+    let (p, a, rs) = match (
+        EntityUid::from_str(r["principal"].as_str().unwrap_or("")),
+        EntityUid::from_str(r["action"].as_str().unwrap_or("")),
+        EntityUid::from_str(r["resource"].as_str().unwrap_or("")),
+    ) {
+        (Ok(p), Ok(a), Ok(rs)) => (p, a, rs),
+        _ => return json!({"input_error": "bad uid"}),
+    };
+    let cx = match Context::from_json_value(r.get("context").cloned().unwrap_or(json!({})), Some((&schema, &a))) {
+        Ok(c) => c,
+        Err(e) => return json!({"input_error": format!("context: {e}")}),
+    };
+    let q = match Request::new(p, a, rs, cx, Some(&schema)) {
+        Ok(q) => q,
+        Err(e) => return json!({"input_error": format!("request: {e}")}),
+    };
+    let ordinary = Authorizer::new().is_authorized(&q, &pset, &ents);
+    let mut out = vec![];
+    for b in req["budgets"].as_array().cloned().unwrap_or_default() {
+        let budget = b.as_u64().unwrap_or(0) as u32;
+        let mut loader = Counting { inner: TestEntityLoader::new(&ents), calls: 0, requested: vec![] };
+        let res = match pset.is_authorized_batched(&q, &schema, &mut loader, budget) {
+            Ok(d) => format!("{d:?}"),
+            Err(e) => {
+                let t = e.to_string();
+                if t.to_lowercase().contains("iteration") { "insufficient".to_string() } else { format!("error: {t}") }
+            }
+        };
+        out.push(json!({"budget": budget, "result": res, "loader_calls": loader.calls, "requested": loader.requested}));
+    }
+    json!({"ordinary": format!("{:?}", ordinary.decision()), "batched": out})
+}
+
 fn handle(req: &J) -> J {
     match req["op"].as_str().unwrap_or("") {
         "eval" => eval(req),
@@ -631,6 +697,7 @@ fn handle(req: &J) -> J {
         "policy_eq" => policy_eq(req),
         "tc" => tc(req),
         "tc_edit" => tc_edit(req),
+        "batched" => batched(req),
         other => json!({"unknown_op": other}),
     }
 }
